@@ -7,20 +7,26 @@
     the Go encoder's output for [ps] is in sync with [ps], so the theorems compose with
     the boolean-coder round trip. *)
 From Coq Require Import List ZArith Lia Bool.
-From Webp Require Import Vp8.Vp8Bool Vp8.Vp8BoolAbs Vp8.Vp8BoolEnc Vp8.Vp8Tables Vp8.Vp8Syntax.
+From Webp Require Import Vp8.Vp8Bool Vp8.Vp8BoolAbs Vp8.Vp8BoolEnc Vp8.Vp8BoolPos Vp8.Vp8Tables Vp8.Vp8Syntax.
 Import ListNotations.
 Open Scope Z_scope.
 
-Definition sync (d : bdec) (ps : list (bool * Z)) : Prop := rfc_bits (map snd ps) d = map fst ps.
+(** [sync d ps]: the decoder will read the symbols [ps], and reading them never takes a bool from
+    beyond the end of its input *)
+Definition sync (d : bdec) (ps : list (bool * Z)) : Prop :=
+  rfc_bits (map snd ps) d = map fst ps /\ bd_past (rfc_run (map snd ps) d) = false.
 
 Lemma sync_cons d b p tl : sync d ((b, p) :: tl) -> exists d', read_bool p d = (b, d') /\ sync d' tl.
 Proof.
-  unfold sync. cbn [map fst snd rfc_bits]. destruct (read_bool p d) as [b' d'].
-  intros H. injection H as -> H. exists d'. split; [reflexivity|exact H].
+  unfold sync. cbn [map fst snd rfc_bits rfc_run]. destruct (read_bool p d) as [b' d'].
+  intros [H Hp]. injection H as -> H. exists d'. split; [reflexivity|]. split; [exact H|exact Hp].
 Qed.
 
+Lemma sync_nil_past d : sync d [] -> bd_past d = false.
+Proof. intros [_ H]. exact H. Qed.
+
 Theorem sync_encode ps z : probs_ok ps -> sync (bd_init (bool_encode ps ++ repeat 0 z)) ps.
-Proof. intros H. apply bool_roundtrip. exact H. Qed.
+Proof. intros H. split; [apply bool_roundtrip; exact H|apply encode_no_past; exact H]. Qed.
 
 (** * field emitters *)
 Definition e_flag (b : bool) : list (bool * Z) := [(b, 128)].
